@@ -501,14 +501,14 @@ func TestC07FreeRunning(t *testing.T) {
 		go func() { wg.Wait(); close(done) }()
 		select {
 		case <-done:
-		case <-time.After(300 * time.Second):
+		case <-time.After(map[bool]time.Duration{false: 300 * time.Second, true: 1200 * time.Second}[race]): // (the race detector slows everything ~10x)
 			// The workers are still running: this directory must not be reused
 			// (rapid re-runs the case to confirm a failure; the stragglers'
 			// uploads would appear in the re-run's directory as orphans).
 			s.Abandon()
 			gs := stack.GoroutinesWith("cache/disk.")
-			fmt.Println("VERIF-INFRA? workload did not finish in 300s")
-			t.Fatalf("workload did not finish within 300 s (deadlock?): goroutines in cache/disk:\n%s", strings.Join(gs, "\n\n"))
+			fmt.Println("VERIF-INFRA? workload did not finish in time")
+			t.Fatalf("workload did not finish within 300 s / 1200 s under the race detector (deadlock?): goroutines in cache/disk:\n%s", strings.Join(gs, "\n\n"))
 		}
 		if px != nil {
 			px.Wait()
